@@ -9,10 +9,10 @@ def tup(x):
     return tuple(tup(y) for y in x) if isinstance(x, list) else x
 
 
-def check(acc, spec, L, limits=LIMITS, stack=('x', 'y'), eps='_', big=False, morph=False):
+def check(acc, spec, L, limits=LIMITS, stack=('x', 'y'), eps='_', big=False, morph=False, exact=False):
     from gambatools.pda_algorithms import pda_accepts_word
     from gambatools.global_settings import GambaTools
-    rp = {'fn': 'mc.props.c09:one', 'mode': 'plain', 'params': {'spec': spec, 'L': L, 'limits': list(limits), 'stack': list(stack), 'eps': eps, 'big': big}}
+    rp = {'fn': 'mc.props.c09:one', 'mode': 'plain', 'params': {'spec': spec, 'L': L, 'limits': list(limits), 'stack': list(stack), 'eps': eps, 'big': big, 'exact': exact}}
     if morph:
         rp = {'fn': 'mc.props.c09:t_space', 'mode': 'plain', 'params': dict(acc.data.get('ctx', {}), upto=spec)}
     R = pda.ref(spec, stack)
@@ -20,7 +20,7 @@ def check(acc, spec, L, limits=LIMITS, stack=('x', 'y'), eps='_', big=False, mor
     if not ok:
         return
     acc.states += 1
-    cap = max(limits) + 1
+    cap = max(limits) + 1 if not exact else max(max(limits) + 1, 14)
     interesting = False
     old = GambaTools.pda_epsilon_closure_max_iterations
     try:
@@ -30,7 +30,10 @@ def check(acc, spec, L, limits=LIMITS, stack=('x', 'y'), eps='_', big=False, mor
             if complete and verdict is not exp:
                 raise core.MachineryError('PDA oracles disagree on {} {!r}: saturation {} explicit {}'.format(spec, w, exp, verdict))
             acc.c['words_with_finite_closures' if complete else 'words_with_a_closure_above_cap'] += 1
-            for lim in limits:
+            lims = list(limits)
+            if exact and complete and exp and 1 <= mx <= cap - 1 and mx not in lims:
+                lims.append(mx)          # the tightest limit at which completeness is still demanded: exactly the largest closure
+            for lim in lims:
                 GambaTools.pda_epsilon_closure_max_iterations = lim
                 inst = {'pda': pda.show(spec, stack), 'word': w, 'limit': lim, 'epsilon': eps}
                 if morph:
@@ -64,8 +67,8 @@ def check(acc, spec, L, limits=LIMITS, stack=('x', 'y'), eps='_', big=False, mor
             acc.sample(pda.show(spec, stack))
 
 
-def one(acc, spec, L, limits, stack, eps, big=False):
-    check(acc, tup(spec), L, tuple(limits), tuple(stack), eps, big)
+def one(acc, spec, L, limits, stack, eps, big=False, exact=False):
+    check(acc, tup(spec), L, tuple(limits), tuple(stack), eps, big, exact=exact)
 
 
 def t_space(acc, n, k, g, t, L, shard, nshard, stride=1, offset=0, limits=LIMITS, stack=('x', 'y'), eps='_', tmin=0, morph=False, upto=None):
@@ -154,6 +157,12 @@ def t_multichar(acc, L):
         check(acc, spec, L + (2 if spec[1] == 5 else 0), (5, 8), ('A', 'B', 'AB', '$'), '_')
 
 
+def t_double_noop(acc, L, shard, nshard, stride=1, offset=0):
+    for idx, spec in pda.double_noop_family():
+        if idx % stride == offset % stride and (idx // stride) % nshard == shard:
+            check(acc, spec, L, (3, 5, 8), ('x', 'y'), '_', exact=True)
+
+
 def t_chain(acc, n, L):
     for idx, spec in chain_family(n):
         check(acc, spec, L, tuple(range(max(1, n - 1), n + 3)), ('x', 'y'), '_')
@@ -169,6 +178,7 @@ def plan(tier, seed):
 
     tasks.append(('plain', 'mc.props.c09:t_deep', {}))
     tasks.append(('plain', 'mc.props.c09:t_multichar', {'L': 2}))
+    tasks.extend(('plain', 'mc.props.c09:t_double_noop', {'L': 3, 'shard': s_, 'nshard': 16, 'stride': 1, 'offset': 0}) for s_ in range(16))
     add(1, 1, 1, 4, 4, 1)
     add(1, 1, 1, 4, 3, 1, morph=True)
     add(2, 1, 1, 2, 3, 4, morph=True)
@@ -194,4 +204,4 @@ def plan(tier, seed):
         bounds = 'PDA(2,1,1,<=3) x words <= 4; PDA(2,2,1,<=2), PDA(2,1,2,<=2) x words <= 3; strides 1/8 of PDA(2,2,1,3), PDA(2,1,1,4), 1/16 of PDA(3,1,1,3); limits 1,2,3,5,8; stride 1/16 with limits 13, 1000'
     return {'tasks': tasks, 'bounds': {'spaces': bounds}, 'exhaustive': True,
             'rule': 'every labelled PDA in the bounds x every word x every listed value of pda_epsilon_closure_max_iterations; soundness vs saturation oracle for every limit; completeness demanded iff explicit configuration search shows every closure on the way has at most `limit` configurations; non-trivial = PDA with a word of the language inside the premise',
-            'assumptions': ['closure premise evaluated on the exact configuration sets (oracle), capped at max(limit)+1', 'small spaces are presented a second time through one live PDA object rewritten in place (detects per-object caches)', 'epsilon-chain family with self-loops (n = 2..5) at limits n-1..n+2: closures with few configurations but many applicable epsilon steps', 'one deep instance a^1005 b with limit 1055 (closure of 1007 configurations: above the default limit of 1000, below the configured one)', 'a family with the stack symbols A, B, AB (constructor-built PDAs; the text format only has one-character symbols)']}
+            'assumptions': ['closure premise evaluated on the exact configuration sets (oracle), capped at max(limit)+1', 'small spaces are presented a second time through one live PDA object rewritten in place (detects per-object caches)', 'epsilon-chain family with self-loops (n = 2..5) at limits n-1..n+2: closures with few configurations but many applicable epsilon steps', 'one deep instance a^1005 b with limit 1055 (closure of 1007 configurations: above the default limit of 1000, below the configured one)', 'a family with the stack symbols A, B, AB (constructor-built PDAs; the text format only has one-character symbols)', 'wave 6: double no-op family (5 460 automata: two different moves with the same effect plus four moves from a menu of sixteen), each word also at the limit that equals its largest closure exactly']}
